@@ -148,14 +148,18 @@ impl Number {
         if exp.value.abs() >= Numeric::from(1 << 31) {
             return Err("Exponent is too large".to_string());
         }
+        // Zero to a negative power divides by zero whether the exponent is
+        // whole or not (`0^-0.5` would come out as infinity below).
+        if exp.value < Numeric::zero()
+            && (self.value == Numeric::zero() || self.value == Numeric::Float(0.0))
+        {
+            return Err("Division by zero".to_string());
+        }
         let (num, den) = exp.value.to_rational();
         let one = BigInt::one();
         if den == one {
             let exp: Option<i64> = num.as_int();
             let exp = exp.unwrap() as i32;
-            if exp < 0 && (self.value == Numeric::zero() || self.value == Numeric::Float(0.0)) {
-                return Err("Division by zero".to_string());
-            }
             // The exponents of the base units have to stay within i32,
             // prefix selection relies on it.
             let fits = self.unit.iter().all(|(_, &power)| {
